@@ -668,6 +668,12 @@ def execute(scenario: dict, env: Any, *, prop: str) -> dict:
                         continue
                     rows = [j for j in cand if (ids[j] * 13 + fault.get("salt", 0)) % 3 == 0] or [cand[0]]
                     fl["rows"] = rows
+                    if all(not isinstance(x, str) for x in u["cols"][fault["var"]]["levels"]):
+                        # whole-number categories: a float among the unseen values would make numpy read the whole column as
+                        # float64, and hashed() would then stringify 10 as '10.0' (hashed()/dtype is C06's hole): not generated
+                        for key_ in ("level", "level2"):
+                            if isinstance(fl.get(key_), float):
+                                fl[key_] = 77
                     if sc["container"] == "arrow":
                         # an arrow column holds one value type: the unseen level must be of the column's own type
                         fl.pop("level2", None)
